@@ -147,11 +147,21 @@ def secret_results(ret):
     return out
 
 
-def run_sequence(seq, p):
-    """seq: list of (body name, [arg shapes]).  Returns list of problems."""
+def run_sequence(seq, p, pre=False):
+    """seq: list of (body name, [arg shapes]).  Returns list of problems.
+    pre=True: every function is DECORATED first, under the library's default bitlength and fixed-point resolution, and
+    only then the program switches to its working configuration and makes the calls (a wrapper must not remember the
+    configuration it was created under)."""
     H.R.p = p
-    H.reset(bitlength=12, resolution=RES)
     rt = H.rt
+    pre_wrappers = {}
+    if pre:
+        H.reset()
+        for bname, _shapes in seq:
+            if bname not in pre_wrappers:
+                slot = [None]
+                pre_wrappers[bname] = (rt.snark(lambda *a, _s=slot: _s[0](*a)), slot)
+    H.reset(bitlength=12, resolution=RES)
     problems = []
     shared_wrappers = {}
     for ci, (bname, shapes) in enumerate(seq):
@@ -166,7 +176,10 @@ def run_sequence(seq, p):
             captured["nvars_at_return"] = len(H.R.vars)
             return r
         try:
-            if bname == "maybe_boom":
+            if pre:
+                pre_wrappers[bname][1][0] = spy
+                got = pre_wrappers[bname][0](*traced)
+            elif bname == "maybe_boom":
                 # one wrapped function object for the whole sequence (the spy is re-pointed per call)
                 if "w" not in shared_wrappers:
                     shared_wrappers["spy"] = [spy]
@@ -286,14 +299,20 @@ def _task(t):
         st["sequences"] += 1
         st["executions"] += 1
         st["transitions"] += len(seq)
-        for klass, ci, text in (kwargs_check(p) if seq == "kwargs" else run_sequence(seq, p)):
+        res = [(k_, c_, t_, False) for k_, c_, t_ in (kwargs_check(p) if seq == "kwargs" else run_sequence(seq, p))]
+        if seq != "kwargs":
+            st["executions"] += 1
+            res += [(k_, c_, t_ + " [functions decorated before the configuration change]", True) for k_, c_, t_ in run_sequence(seq, p, pre=True)]
+        for klass, ci, text, pre_ in res:
             sig = {"klass": klass}
+            if pre_:
+                sig["predecorated"] = True
             if klass in ("public-values-out-of-order", "public-values-differ") and seq != "kwargs":
                 kinds = sorted({type(x).__name__ for _, shp in seq for x in leaves(list(shp))})
                 sig["mix"] = "+".join(kinds)
             k = common.sig_hash(sig)
             if k not in viols:
-                viols[k] = {"sig": sig, "count": 0, "what": "call sequence %r, call %d: %s" % (seq, ci, text), "case": {"seq": seq, "p": p}}
+                viols[k] = {"sig": sig, "count": 0, "what": "call sequence %r, call %d: %s" % (seq, ci, text), "case": {"seq": seq, "p": p, "pre": pre_}}
             viols[k]["count"] += 1
     return {"st": st, "viols": viols}
 
@@ -407,5 +426,5 @@ def replay(case):
         pr = kwargs_check(case["p"])
     else:
         seq = [(b, a) for b, a in seq]
-        pr = run_sequence(seq, case["p"])
+        pr = run_sequence(seq, case["p"], pre=bool(case.get("pre")))
     return {"sequence": seq, "violations": [{"klass": k, "call": c, "what": t} for k, c, t in pr]}
